@@ -8,8 +8,9 @@ ids = [p["id"] for p in props]
 import importlib, sys
 sys.path.insert(0, os.path.join(ROOT, "tools"))
 CLAIMED = {}
+READY = set(open(os.path.join(ROOT, "tools", "ready.txt")).read().split())
 for pid in ids:
-    if os.path.exists(os.path.join(ROOT, "tools", "props", pid.lower() + ".py")):
+    if pid in READY and os.path.exists(os.path.join(ROOT, "tools", "props", pid.lower() + ".py")):
         mod = importlib.import_module("props." + pid.lower())
         if getattr(mod, "CLAIM", None):
             CLAIMED[pid] = mod.CLAIM
